@@ -682,7 +682,12 @@ func (s *sender) handleRcvdSegment(seg *segment) {
 
 	// Stash away the current window size.
 	// 存放当前窗口大小。
-	s.sndWnd = seg.window
+	if !seg.ackNumber.LessThan(s.sndUna) {
+		// An ACK for less than what has already been acknowledged is a
+		// stale (reordered or duplicated) segment; its window says nothing
+		// about space beyond sndUna.
+		s.sndWnd = seg.window
+	}
 
 	// Ignore ack if it doesn't acknowledge any new data.
 	// 获取确认号
